@@ -269,7 +269,18 @@ func checkC10(r *Result) {
 				{Name: "stored", Event: P.CallEvent(descIs("coll:x/reporter/keeper.Keeper.Report.Set"), T)},
 			})
 			okIter, nBack, det := true, 0, ""
+			countLoops := map[*ssa.BasicBlock]bool{}
+			for _, cs := range P.CallSitesIn(rs) {
+				if strings.HasSuffix(cs.Callee, ".IterateBondedValidatorsByPower") || strings.HasSuffix(cs.Callee, "StakingKeeper.IterateDelegatorDelegations") {
+					if h := innermostLoopHeader(rs, cs.Instr.Block()); h != nil {
+						countLoops[h] = true
+					}
+				}
+			}
 			for _, h := range loopHeaders(rs) {
+				if !countLoops[h] {
+					continue
+				}
 				for _, p := range h.Preds {
 					if !h.Dominates(p) {
 						continue
